@@ -52,6 +52,10 @@ type Interp struct {
 	sharedWrites []string
 
 	mapSeq int
+
+	onDivSet     bool
+	onDivLabel   string
+	onDivFinding string
 }
 
 type deferred struct {
@@ -92,6 +96,7 @@ func (it *Interp) resetPath() {
 	it.sharedMaps = nil
 	it.sharedWrites = nil
 	it.mapSeq = 0
+	it.onDivSet = false
 	it.maxDepth = 400
 	it.rm.resetPath()
 }
